@@ -151,6 +151,8 @@ def lpc_e(e, names):
         return "%s(%s)" % (e[1], ", ".join(lpc_e(x, names) for x in e[2])) if e[2] is not None else e[1]
     if k == "lam2":              # anonymous functional (: $1 op $2 :) applied to two arguments
         return "evaluate((: $1 %s $2 :), %s, %s)" % (BINOPS[e[1]], lpc_e(e[2], names), lpc_e(e[3], names))
+    if k == "id":                # identifier inside a macro body (parameter, variable or efun name - decided by substitution)
+        return e[1]
     if k == "paren":
         return lpc_e(e[1], names)
     raise ValueError(e)
@@ -463,13 +465,14 @@ def typed_local(e):
 class C03(Prop):
     id = "C03"
     title = "Compiled bytecode computes exactly what LPC semantics define"
-    lean_modules = ["NV.C03.Props", "NV.C03.Props2", "NV.C03.Props3", "NV.C03.Props4", "NV.C03.Props5", "NV.C03.Props6", "NV.C03.Witness"]
+    lean_modules = ["NV.C03.Props", "NV.C03.Props2", "NV.C03.Props3", "NV.C03.Props4", "NV.C03.Props5", "NV.C03.Props6", "NV.C03.Props7", "NV.C03.Witness"]
     theorems = []          # filled below
     witness_theorems = []
     consts = [("oldRangeBehavior", "NV_OLD_RANGE"), ("switchCaseSize", "SWITCH_CASE_SIZE"),
               ("mapHashTableSize", "MAP_HASH_TABLE_SIZE"), ("mapFillPercent", "FILL_PERCENT"),
-              ("mapMaxTableSize", "MAX_TABLE_SIZE"), ("mapHashOf4096", "MAP_POINTER_HASH(4096)")]
-    const_headers = ["lib/efuns/options.h", "src/interpret.h", "lib/lpc/mapping.h"]
+              ("mapMaxTableSize", "MAX_TABLE_SIZE"), ("mapHashOf4096", "MAP_POINTER_HASH(4096)"),
+              ("macroMarks", "MARKS"), ("macroNargs", "NARGS")]
+    const_headers = ["lib/efuns/options.h", "src/interpret.h", "lib/lpc/mapping.h", "lib/lpc/lex.h"]
     const_prelude = "#ifdef OLD_RANGE_BEHAVIOR\n#define NV_OLD_RANGE 1\n#else\n#define NV_OLD_RANGE 0\n#endif\n"
     quick_n = 1200
     thorough_n = 6000
@@ -497,12 +500,49 @@ class C03(Prop):
                    "`-=` on char lvalues (documented as supported, raises 'Bad left type to -=')",
                    "mapping hash-table growth is exercised by correspondence only (no table-level theorem)"]
 
+    def gen_extra(self, ctx, bdir):
+        """T4-style tie: the condition under which handle_define (lib/lpc/lex.c) replaces a body identifier by the marker of
+        parameter n is transcribed into `NV.Gen.C03.macroParamMatch`; Props7.lean proves that it is string equality."""
+        import re
+        from nvlib import extract as X
+        src = open(os.path.join(E.REPO, "lib/lpc/lex.c")).read()
+        m = re.search(r"static void handle_define \(char \*yyt\) \{(.*?)\n\}\n", src, re.S)
+        if not m:
+            raise X.TieBroken("guard:handle_define", "handle_define not found in lib/lpc/lex.c")
+        body = m.group(1)
+        g = re.search(r"for \(n = 0; n < arg; n\+\+\)\s*\{(.*?)if \((.*?)\)\s*\{\s*q -= idlen;", body, re.S)
+        if not g:
+            raise X.TieBroken("guard:handle_define", "parameter matching loop of handle_define not recognised")
+        pre, cond = g.group(1), " ".join(g.group(2).split())
+        if not re.search(r"\bl = strlen \(args\[n\]\);", pre):
+            raise X.TieBroken("guard:handle_define", "`l = strlen (args[n])` not found before the test: %s" % pre.strip())
+        atoms = []
+        for at in [a.strip() for a in cond.split("&&")]:
+            at = re.sub(r"^\((.*)\)$", r"\1", at).strip()
+            if at in ("l == idlen", "idlen == l"):
+                atoms.append("decide (l = idlen)")
+                continue
+            q = re.fullmatch(r"strncmp \(args\[n\], ids, (l|idlen)\) == 0", at) or re.fullmatch(r"!strncmp \(args\[n\], ids, (l|idlen)\)", at)
+            if q:
+                atoms.append("eqUpTo %s" % q.group(1))
+                continue
+            raise X.TieBroken("guard:handle_define", "atom outside the guard grammar: `%s` in `%s`" % (at, cond))
+        return ("\n/-- C (lib/lpc/lex.c handle_define): a body identifier of length `idlen` is replaced by parameter n iff\n"
+                "    `%s`  (l = strlen (args[n]); `eqUpTo k` = strncmp (args[n], ids, k) == 0) -/\n"
+                "def macroParamMatch (l idlen : Nat) (eqUpTo : Nat → Bool) : Bool := %s\n" % (cond.replace("-/", "- /"), " && ".join(atoms)))
+
     def prepare(self, ctx):
         self.exe = E.compile_harness("c03", [os.path.join(E.VERIF, "harness/c03/c03.c")], kind="c03")
+        self.exe_lex = E.compile_harness("c03lex", [os.path.join(E.VERIF, "harness/c03/c03lex.c")], kind="c03")
         self.conf = E.make_mudlib(ctx.rundir, master="/c03/master.c")
 
     def run_impl(self, ctx, cases):
         out = {}
+        # unit-style preprocessor cases go to the harness that #includes lib/lpc/lex.c
+        lexc = [c for c in cases if c.lines and c.lines[0].startswith("mdef ")]
+        if lexc:
+            out.update(E.run_harness(self.exe_lex, self.conf, lexc, ctx.rundir, args=["--timeout", "20"]))
+            cases = [c for c in cases if not (c.lines and c.lines[0].startswith("mdef "))]
         # chunks keep one crashing child from hiding the rest and bound the size of one harness stdin
         for k in range(0, len(cases), 200):
             out.update(E.run_harness(self.exe, self.conf, cases[k:k + 200], ctx.rundir, args=["--timeout", "20"]))
@@ -1249,8 +1289,142 @@ class C03(Prop):
         toks += ["plus", "abs", "plus"]
         return E.Case(cid, ["maptrace " + " ".join(toks)], {"origin": "generated", "family": "maptrace"})
 
+    # ---- macros: parameter names vs body identifiers -------------------------------------------------------------
+    MAC_POOL = ["a", "ab", "abc", "a1", "_a", "b", "ba", "b_", "i", "ij", "i2", "n", "nn", "n0", "c", "cc", "d", "dd", "d1",
+                "j", "jj", "g", "g0x", "g00", "g1_", "val", "v", "x1", "strlen2", "size", "sizeof_", "f_ad", "h_"]
+    MAC_VARS = {"a": ("l", A), "b": ("l", B), "c": ("l", C), "d": ("l", D), "i": ("l", LI), "j": ("l", LJ), "n": ("l", LN),
+                "g0": ("g", 0), "g1": ("g", 1), "g3": ("g", 3)}
+
+    def mac_subst(self, body, env):
+        """textbook substitution: an identifier is replaced iff it EQUALS a parameter name; other identifiers are the
+        variables of the calling function"""
+        if isinstance(body, tuple):
+            if body and body[0] == "id":
+                if body[1] in env:
+                    return env[body[1]]
+                return self.MAC_VARS[body[1]]
+            return tuple(self.mac_subst(x, env) for x in body)
+        if isinstance(body, list):
+            return [self.mac_subst(x, env) for x in body]
+        return body
+
+    def mac_body(self, rng, ids, depth):
+        if depth == 0 or rng.chance(1, 4):
+            if rng.chance(1, 6):
+                return I(rng.range(0, 9))
+            return ("id", rng.choice(ids))
+        k = rng.weighted([("bin", 6), ("call", 1), ("cond", 1), ("efun", 1), ("idx", 1)])
+        if k == "bin":
+            return ("bin", rng.choice(["add", "sub", "mul"]), self.mac_body(rng, ids, depth - 1), self.mac_body(rng, ids, depth - 1))
+        if k == "call":
+            return ("call", "f_add", [self.mac_body(rng, ids, depth - 1), self.mac_body(rng, ids, depth - 1)], "local")
+        if k == "cond":
+            return ("cond", ("bin", "lt", self.mac_body(rng, ids, depth - 1), I(50)), self.mac_body(rng, ids, depth - 1), I(rng.range(1, 9)))
+        if k == "efun":
+            return ("efun", "strlen", [("bin", "add", S(b"len"), self.mac_body(rng, ids, depth - 1))])
+        return ("idx", Arr([I(40), self.mac_body(rng, ids, depth - 1), I(41)]), I(1))
+
+    def mac_arg(self, rng):
+        k = rng.weighted([("lit", 4), ("var", 3), ("commas", 4), ("expr", 2), ("nested", 2)])
+        if k == "lit":
+            return I(rng.choice([0, 1, 2, 10, 20, -3, 2 ** 32, 255]))
+        if k == "var":
+            return rng.choice([L(A), L(B), L(LI), L(LN), G(0), G(3)])
+        if k == "commas":
+            return rng.choice([("call", "f_add", [I(rng.range(1, 9)), I(rng.range(1, 9))], "local"),
+                               ("idx", Arr([I(7), I(8), I(9)]), I(rng.range(0, 2))),
+                               ("efun", "strlen", [S(rng.choice([b"x,y", b"a,(b", b"),", b"'"]))]),
+                               ("idx", Map([(I(1), I(5)), (I(2), I(6))]), I(rng.range(1, 2))),
+                               ("call", "f_sub", [("call", "f_mul", [I(3), I(4)], "local"), L(LJ)], "local")])
+        if k == "expr":
+            return ("bin", rng.choice(["add", "sub", "mul"]), rng.choice([L(A), L(LI), I(3)]), I(rng.range(1, 5)))
+        return ("macro", "SQ", [I(rng.range(2, 6))], ("bin", "mul", I(0), I(0)))   # patched below
+
+    def fam_macrosubst(self, rng, cid):
+        pre = [("expr", ("asg", L(A), I(11))), ("expr", ("asg", L(B), I(22))), ("expr", ("asg", L(C), I(33))), ("expr", ("asg", L(D), I(44))),
+               ("expr", ("asg", L(LI), I(5))), ("expr", ("asg", L(LJ), I(6))), ("expr", ("asg", L(LN), I(7))),
+               ("expr", ("asg", G(0), I(100))), ("expr", ("asg", G(1), I(200))), ("expr", ("asg", G(3), I(300)))]
+        defs = ["#define SQ(x) ((x) * (x))"]
+        calls, hands = [], []
+        for m in range(rng.range(1, 3)):
+            np_ = rng.range(1, 3)
+            params = []
+            while len(params) < np_:
+                c = rng.choice(self.MAC_POOL)
+                if c not in params:
+                    params.append(c)
+            # body identifiers: the parameters, variables whose names are prefixes / extensions of parameters, and others
+            ids = list(params) * 2 + [v for v in self.MAC_VARS if any(q.startswith(v) or v.startswith(q) for q in params)]
+            ids += [rng.choice(list(self.MAC_VARS))]
+            body = self.mac_body(rng, ids, rng.range(1, 3))
+            name = "MC%d" % m
+            style = rng.weighted([("plain", 4), ("cont", 2), ("spaces", 1)])
+            text = lpc_e(body, NAMES)
+            if style == "cont":
+                cut = text.find(" ", len(text) // 2)
+                if cut > 0:
+                    defs.append("#define %s(%s) %s \\" % (name, ", ".join(params), text[:cut]))
+                    defs.append("   " + text[cut:])
+                else:
+                    defs.append("#define %s(%s) %s" % (name, ", ".join(params), text))
+            elif style == "spaces":
+                defs.append("#define %s( %s )   %s  " % (name, " , ".join(params), text))
+            else:
+                defs.append("#define %s(%s) %s" % (name, ",".join(params), text))
+            for _ in range(rng.range(1, 2)):
+                args = []
+                for _q in params:
+                    a = self.mac_arg(rng)
+                    if a[0] == "macro":
+                        v = a[2][0]
+                        a = ("macro", "SQ", [v], ("bin", "mul", v, v))
+                    args.append(a)
+                exp = self.mac_subst(body, dict(zip(params, args)))
+                calls.append(("macro", name, args, exp))
+                hands.append(exp)
+        # a macro that uses other macros in its body (rescanning) and an object-like macro naming a variable
+        defs.append("#define TWICE_SQ(q1) (SQ(q1) + SQ(q1))")
+        defs.append("#define VAR_N n")
+        v = self.mac_arg(rng)
+        if v[0] == "macro":
+            v = I(4)
+        calls.append(("macro", "TWICE_SQ", [v], ("bin", "add", ("bin", "mul", v, v), ("bin", "mul", v, v))))
+        hands.append(("bin", "add", ("bin", "mul", v, v), ("bin", "mul", v, v)))
+        calls.append(("macro", "VAR_N", None, L(LN)))
+        hands.append(L(LN))
+        fns = [pre + [("ret", Arr(calls))], pre + [("ret", Arr(hands))]]
+        return make_case(cid, fns, defines=defs, meta={"origin": "generated", "family": "macrosubst"})
+
+    def fam_mdef(self, rng, cid):
+        """unit-style: #define texts through the real handle_define (); the stored text (parameter markers) is dumped and
+        must equal the model's (Macro.lean) and the textbook template"""
+        lines = []
+        ops = ["+", "-", "*", "(", ")", " ", "  ", ",", "[", "]", "?", ":", "<", "##", "@", "@@", "\t", "'", ".", ";", "=="]
+        for m in range(rng.range(2, 6)):
+            np_ = rng.range(0, 4)
+            params = []
+            while len(params) < np_:
+                c = rng.choice(self.MAC_POOL + ["x", "xy", "p1", "p10", "_", "__a", "A", "aB"])
+                if c not in params:
+                    params.append(c)
+            words = list(params) * 2 + [q[:-1] for q in params if len(q) > 1] + [q + rng.choice("ab1_") for q in params] + \
+                ["a", "ab", "abc", "n", "sizeof", "0", "12", "1a", "a1b", "x"]
+            body = []
+            for _ in range(rng.range(0, 14)):
+                body.append(rng.choice(words) if rng.chance(1, 2) else rng.choice(ops))
+                if rng.chance(1, 3):
+                    body.append(" ")
+            if rng.chance(1, 5):
+                body.append('"%s"' % rng.choice(words))
+            sep = rng.choice([",", ", ", " , "])
+            if rng.chance(1, 6):
+                lines.append("mdef OBJ%d%s%s" % (m, rng.choice([" ", "  ", "\t"]), "".join(body) or "1"))
+            else:
+                lines.append("mdef FN%d(%s)%s%s" % (m, sep.join(params), rng.choice(["", " ", "  "]), "".join(body)))
+        return E.Case(cid, lines, {"origin": "generated", "family": "mdef"})
+
     FAMS = [("fam_binop", 9), ("fam_unop", 2), ("fam_incdec", 3), ("fam_index", 5), ("fam_range", 5), ("fam_lvalue", 6),
-            ("fam_switch", 6), ("fam_loop", 6), ("fam_assignop", 5), ("fam_literal", 2), ("fam_rewrite", 4), ("fam_macro", 3), ("fam_calls", 5), ("fam_mapalg", 7), ("fam_maptrace", 5)]
+            ("fam_switch", 6), ("fam_loop", 6), ("fam_assignop", 5), ("fam_literal", 2), ("fam_rewrite", 4), ("fam_macro", 3), ("fam_calls", 5), ("fam_mapalg", 7), ("fam_maptrace", 5), ("fam_macrosubst", 7), ("fam_mdef", 4)]
 
     def generate(self, rng, n, tier):
         out = []
@@ -1327,6 +1501,9 @@ class C03(Prop):
         mm1, mm2 = Map([(I(1), I(2)), (I(7), I(8))]), Map([(I(2), I(3)), (I(4), I(5))])
         mk("map-muleq", [[("expr", ("asg", L(A), mm1)), ("expr", ("asg", L(B), mm2)), ("expr", ("aop", "mul", L(A), L(B))), ("ret", L(A))],
                          [("expr", ("asg", L(A), mm1)), ("expr", ("asg", L(B), mm2)), ("ret", ("bin", "mul", L(A), L(B)))]])
+        mk("macro-prefix-param", [[("expr", ("asg", L(A), I(3))), ("ret", Arr([("macro", "PICK", [I(10), I(20)], I(20)), ("macro", "SCALE", [I(5)], ("bin", "mul", L(A), I(5)))]))],
+                                  [("expr", ("asg", L(A), I(3))), ("ret", Arr([I(20), ("bin", "mul", L(A), I(5))]))]],
+           defines=["#define PICK(ab, a) (a)", "#define SCALE(a1) (a * (a1))"])
         mk("diveq-int-real-big", [[("expr", ("asg", L(A), I(2 ** 40))), ("expr", ("aop", "div", L(A), Fl(1.0))), ("ret", L(A))]])
         return Bc
 
@@ -1345,6 +1522,8 @@ PROP.theorems = ["NV.C03." + t for t in (
     "HT.grow_lookup", "HT.grow_wf", "HT.insert_lookup_same", "HT.insert_lookup_other", "HT.insert_wf",
     "HT.delete_lookup_same", "HT.delete_lookup_other", "HT.delete_wf", "HT.insert_refines", "HT.merge_refines",
     "HT.mapping_lookup_after_insert", "HT.empty_refines",
+    "Macro.macroParamMatch_iff", "Macro.matchParam_eq_paramOf", "Macro.specGo_eq", "Macro.scan_eq", "Macro.goRaw_blank",
+    "Macro.macro_definition_agrees", "Macro.macro_expansion_agrees",
     "wrap_id", "wrap_range", "tdiv_range", "tmod_range", "idiv_eq", "imod_eq")]
 PROP.witness_theorems = ["NV.C03." + t for t in (
     "witness_num_opeq_real", "witness_addeq_num_str", "assignop_agrees_Full_false", "witness_buf_store_zero",
